@@ -168,6 +168,12 @@ func runTrace(c tcase, dir string) {
 	defer cancel()
 	wk := waker.NewTimed(wctx, time.Millisecond)
 	var wg sync.WaitGroup
+	// Datagram sockets: one datagram is in flight at a time (the kernel enqueues datagrams atomically
+	// anyway), so the order of the datagrams in the socket queue is the order of the "write" events and
+	// the trace specification need not search over it.  NOT the trace mutex: a sender blocked on a full
+	// unixgram queue must not stop the consumer from logging lines.
+	var dgramMu sync.Mutex
+	serial := c.Kind == "unixgram" || c.Kind == "udp"
 	oneShot := logstream.OneShotDisabled
 	if c.OneShot {
 		oneShot = logstream.OneShotEnabled
@@ -340,6 +346,9 @@ func runTrace(c tcase, dir string) {
 				if d, ok := k.(deadliner); ok {
 					_ = d.SetWriteDeadline(time.Now().Add(deadline))
 				}
+				if serial {
+					dgramMu.Lock()
+				}
 				tr.log("write", "w", w, "b", ch)
 				n, werr := k.Write(enc(ch))
 				if werr != nil || n != len(ch) {
@@ -349,10 +358,16 @@ func runTrace(c tcase, dir string) {
 						tr.log("writefail", "w", w, "err", fmt.Sprint(werr), "wrote", n)
 					}
 					failures.Add(1)
+					if serial {
+						dgramMu.Unlock()
+					}
 					_ = k.Close()
 					return
 				}
 				tr.log("written", "w", w)
+				if serial {
+					dgramMu.Unlock()
+				}
 				if len(ch) == 0 {
 					sentZero.Store(true)
 				}
